@@ -193,6 +193,11 @@ NODE_RULE = ('ceremonies (n,t) of the tier with one observed node; every message
 
 def prog_C09(ctx):
     generic(ctx, ['Dc4bcVerif.Props.C09'], 'nodediff', 'node', ['C09'], NODE_TRUSTED, NODE_RULE, cov_from_stats=node_cov)
+    # forged messages after a re-initialisation (the replay toggles verification for the unsigned 0.1.4 patches)
+    ev = ctx.cov.get('evaluations', 0)
+    rd = monitor_only(ctx, 'reinitdiff', ['C09'], 'after_reinitialisation')
+    if rd:
+        ctx.cov['evaluations'] = ev + 3 * rd.get('Reinits', 0)
 
 
 def prog_C10(ctx):
